@@ -76,20 +76,36 @@ def verify(src, prop, name):
         sh(f"git -C /repo worktree remove --force {WT}")
 
 
-def run(seed, tier="quick"):
+def run(seed, tier="quick", worktree=False):
+    """worktree=False: the patch is applied to /repo itself and undone afterwards.  worktree=True: the check runs
+    against a scratch worktree of /repo's HEAD with the patch applied (VERIF_REPO + PYTHONPATH), /repo untouched -
+    used when another run is reading /repo at the same time."""
     d = os.path.join(SEEDED, seed)
     meta = json.load(open(os.path.join(d, "meta.json")))
     prop = meta["property"]
-    st = sh("git -C /repo status --porcelain --untracked-files=no").stdout.strip()
-    assert not st, "/repo has uncommitted changes: " + st
-    r = sh(f"git -C /repo apply {os.path.join(d, 'patch.diff')}")
-    assert r.returncode == 0, r.stderr
     t0 = time.time()
-    try:
-        r = sh(f"cd {VERIF} && ./check {prop} --tier {tier} --no-evidence", timeout=3600)
-        out = r.stdout
-    finally:
-        sh("git -C /repo checkout -- .")
+    if worktree:
+        wt = f"/tmp/wt_seedrun_{seed}"
+        sh(f"git -C /repo worktree remove --force {wt}")
+        r = sh(f"git -C /repo worktree add -q --detach {wt} HEAD")
+        assert r.returncode == 0, r.stderr
+        try:
+            r = sh(f"git -C {wt} apply {os.path.join(d, 'patch.diff')}")
+            assert r.returncode == 0, r.stderr
+            r = sh(f"cd {VERIF} && VERIF_REPO={wt} PYTHONPATH={wt} ./check {prop} --tier {tier} --no-evidence --jobs 8", timeout=5400)
+            out = r.stdout
+        finally:
+            sh(f"git -C /repo worktree remove --force {wt}")
+    else:
+        st = sh("git -C /repo status --porcelain --untracked-files=no").stdout.strip()
+        assert not st, "/repo has uncommitted changes: " + st
+        r = sh(f"git -C /repo apply {os.path.join(d, 'patch.diff')}")
+        assert r.returncode == 0, r.stderr
+        try:
+            r = sh(f"cd {VERIF} && ./check {prop} --tier {tier} --no-evidence", timeout=3600)
+            out = r.stdout
+        finally:
+            sh("git -C /repo checkout -- .")
     viol = [l for l in out.splitlines() if l.startswith("VIOLATION")]
     summary = [l for l in out.splitlines() if l.startswith(prop + " ")]
     meta["runs"][tier] = {
@@ -101,6 +117,7 @@ def run(seed, tier="quick"):
         "summary": summary[-1] if summary else "",
         "wall_s": round(time.time() - t0, 1),
         "repo_head": sh("git -C /repo rev-parse --short HEAD").stdout.strip(),
+        "mode": "scratch worktree of /repo HEAD + patch" if worktree else "patch applied to /repo, undone afterwards",
         "verif_head": sh(f"git -C {VERIF} rev-parse --short HEAD").stdout.strip(),
     }
     with open(os.path.join(d, "meta.json"), "w") as f:
@@ -116,10 +133,10 @@ if __name__ == "__main__":
     if cmd == "verify":
         sys.exit(0 if verify(*sys.argv[2:5]) else 1)
     if cmd == "run":
-        run(sys.argv[2], sys.argv[3] if len(sys.argv) > 3 else "quick")
+        run(sys.argv[2], sys.argv[3] if len(sys.argv) > 3 and not sys.argv[3].startswith("--") else "quick", worktree="--worktree" in sys.argv)
     if cmd == "runall":
         tier = sys.argv[2] if len(sys.argv) > 2 else "quick"
         for seed in sorted(os.listdir(SEEDED)):
             m = json.load(open(os.path.join(SEEDED, seed, "meta.json")))
             if tier not in m.get("runs", {}) or "--force" in sys.argv:
-                run(seed, tier)
+                run(seed, tier, worktree="--worktree" in sys.argv)
